@@ -384,3 +384,40 @@ def aging(rng, n):
                 e = rng.choice(["(list 1 %s)", "(+ 1 %s)", "(vector %s 2)", "((lambda (q) q) %s)", "(let ((w %s)) w)", "(if #t %s 0)", "(begin 1 %s)", "(cons %s '())", "(and 1 %s)", "(cond (#f 0) (else %s))"]) % e
             out.append(e)
     return out
+
+
+# ------------------------------------------------------------------ the same object in several argument positions; odd library names
+def shared_object_calls(rng, names):
+    """builtins applied to arguments among which one object occurs twice or inside another argument"""
+    pre = "(define zv (vector 1 2 3)) (define zl (list 1 2 3)) (define (zp . a) a) (define zc (list zv zv))"
+    pool = ["zv", "zv", "zl", "zc", "zp", "(list 0 zv)", "(vector zv)", "(cons zv zv)", "0", "1", "'a", "(vector-ref zv 0)"]
+    forms = [pre]
+    for _ in range(rng.randint(2, 6)):
+        forms.append("(%s %s)" % (rng.choice(names), " ".join(rng.choice(pool) for _ in range(rng.randint(1, 4)))))
+    return tame(" ".join(forms))
+
+
+STRUCTURE_BUILTINS = ["vector-set!", "vector-ref", "vector-length", "make-vector", "vector", "list-tail", "list-ref", "append", "memv", "memq", "equal?", "eqv?", "eq?", "apply", "map",
+                      "for-each", "fold-left", "fold-right", "cons", "car", "cdr", "list", "display", "last-pair", "list?", "make-list"]
+
+
+def shared_object_sweep():
+    """every structure builtin on every argument tuple of length <= 3 over five objects, one of which (a vector) also occurs inside two others"""
+    import itertools
+    pre = "(define zv (vector 1 2 3)) (define zl (list 1 2 3)) (define (zp . a) a)"
+    pool = ["zv", "(list 0 zv)", "zl", "0", "zp"]
+    out = []
+    for b in STRUCTURE_BUILTINS:
+        calls = ["(%s %s)" % (b, " ".join(t)) for k in (1, 2, 3) for t in itertools.product(pool, repeat=k)]
+        for i in range(0, len(calls), 12):
+            out.append(tame(pre + " " + " ".join(calls[i:i + 12])))
+    return out
+
+
+def odd_imports(rng):
+    """import declarations whose library names are unusual as file names"""
+    part = lambda: rng.choice(["..", ".", "|/|", "||", "|a/b|", "|../x|", "a", "util", "scheme", "base", "0", "1", "|.sld|", "|a b|", "...", "|\\\\|", "|..|", "-", "|~|", "|con|", "|a.b.c|", "x.y"])
+    name = "(%s)" % " ".join(part() for _ in range(rng.randint(0, 3)))
+    wrap = rng.choice(["%s", "(only %s car)", "(prefix %s p-)", "(except %s)", "(rename %s (a b))", "%s %s"])
+    decl = "(import %s)" % (wrap.replace("%s", name))
+    return rng.choice(["%s", "%s (car '(1))", "(define-library (odd lib) (import %s) (export) (begin)) 1".replace("(import %s)", decl) if False else "%s"]) % decl
